@@ -61,6 +61,11 @@ theorem run_spec {prog : List MemoFn} {key : FnDecl → Nat} (hinj : KeyInjectiv
     rw [hv]
     exact congrArg _ hvs
 
+/-- two functions with one key: the second call of the pair is answered from the first one's entry -/
+theorem run_two_collide (key : FnDecl → Nat) (f g : MemoFn) (a : Args) (hk : key f.decl = key g.decl) :
+    (run key [] [(f, a), (g, a)]).2 = [f.body a, f.body a] := by
+  simp [run, call, List.lookup, hk]
+
 /-! ### the site text determines (module path, line, column) -/
 
 def decVal (bs : Bytes) : Nat := bs.foldl (fun n b => 10 * n + (b - 48)) 0
